@@ -36,6 +36,13 @@ DEVSETS = [[], ["MungeCollision"], ["StaleRefer"], ["MungeCollision", "StaleRefe
 OPTSETS = {"direct": ({}, "d"), "indirect": ({"use_var_indirection": True}, "i"),
            "direct-noinline": ({"inline_functions": False}, "d"),
            "indirect-noinline": ({"use_var_indirection": True, "inline_functions": False}, "i")}
+def def_text(flag, n, v, k):
+    """the ways of writing `def`: at top level or inside a function body, of an integer or of a function returning it
+    (a function value is called by `encode`) -- "the value most recently given by def" however the def is written"""
+    return ["(def %s%s %d)", "((fn [] (def %s%s %d)))", "(defn %s%s [] %d)", "((fn [] (defn %s%s [] %d)))",
+            "(def %s%s %d)", "(let [z 0] (def %s%s (fn [] %d)))"][k % 6] % (flag, n, v)
+
+
 FLAGMETA = {"plain": "", "priv": "^:private ", "dyn": "^:dynamic ", "redef": "^:redef "}
 
 
@@ -90,6 +97,8 @@ class World:
         self.n = 0
         self.opts = {k: compiler.compiler_opts(**o) for k, (o, _) in OPTSETS.items()}
 
+    nstep = 0
+
     def fresh(self, optname):
         self.n += 1
         self.A = "c10a%dx%d" % (os.getpid(), self.n)
@@ -127,7 +136,7 @@ class World:
         a, n = st["a"], st["n"]
         other = self.nsname("B" if st["ns"] == "A" else "A")
         if a == "def":
-            return "(def %s%s %d)" % (FLAGMETA[st["fl"]], n, st["v"])
+            return def_text(FLAGMETA[st["fl"]], n, st["v"], self.nstep)
         if a == "inns":
             return "(in-ns '%s)" % other
         if a == "req":
@@ -164,6 +173,12 @@ class World:
             cv = self.core.find(self.sym.symbol(nm))
             if cv is not None and cv.value is v:
                 return AMB
+        if getattr(v, "_basilisp_fn", False) or type(v).__name__ == "function":
+            try:                       # a def of a function value (see def_text): the value is what it returns
+                r = v()
+            except Exception as e:  # noqa
+                return "other:fn-raises:" + type(e).__name__
+            return r if isinstance(r, int) and not isinstance(r, bool) else "other:fn-returns:" + type(r).__name__
         return "other:" + type(v).__name__
 
     def observe(self, text, names):
@@ -256,6 +271,7 @@ def replay_history(w, names, hist, tables, optname, every_step, per_read=False):
     try:
         for k in range(len(hist) + 1):
             if k > 0:
+                w.nstep = k + len(hist) + sum(ord(c) for c in hist[k - 1]["n"])      # which way of writing def
                 text = w.step_text(hist[k - 1])
                 try:
                     w.eval(text)
